@@ -467,24 +467,27 @@ def check(ctx):
     # unless it is told to validate -- 'ELv!*\n mzrZq' decodes (to the bytes of 'ELvmzrZq') instead of being refused
     gtp = an.cfg(tp)
     ndec = 0
-    for n in gtp.nodes:
+    # (every reader of stored secrets: SecureField.to_python and the overrides in its subclasses)
+    readers = [tp] + [c_.methods["to_python"] for c_ in model.cls("SecureField").subclasses(strict=True) if "to_python" in c_.methods]
+    for tpx, n in [(f_, n_) for f_ in readers for n_ in an.cfg(f_).nodes]:
         if n.kind != "call" or not isinstance(n.ast, ast.Call):
             continue
         nm = ast.unparse(n.ast.func).split(".")[-1]
         if nm not in ("b64decode", "standard_b64decode", "urlsafe_b64decode", "a2b_base64", "decodebytes", "b32decode", "b16decode"):
             continue
-        ndec += 1
+        if tpx is tp:
+            ndec += 1
         strict = any(kw.arg in ("validate", "strict_mode") and isinstance(kw.value, ast.Constant) and kw.value.value is True for kw in n.ast.keywords) \
             or nm in ("b32decode", "b16decode")
         if not strict:
             # or the text was checked against the alphabet before (a full-match regular expression)
             from engine.flow import guard_atoms as _ga
             strict = any(isinstance(e_, ast.Call) and isinstance(e_.func, ast.Attribute) and e_.func.attr == "fullmatch" and truth_ is True
-                         for e_, truth_, _t in _ga(an, tp, n))
-        ctx.ob("reject.bad-encoding", tp, n.ast, strict,
+                         for e_, truth_, _t in _ga(an, tpx, n))
+        ctx.ob("reject.bad-encoding", tpx, n.ast, strict,
                "the stored ciphertext is decoded strictly: text that is not base64 is an error" if strict else
-               "SecureField.to_python decodes the stored ciphertext with %s without validation: characters outside the alphabet are dropped "
-               "silently and a malformed record yields a value instead of an error" % nm, node=n)
+               "%s decodes the stored ciphertext with %s without validation: characters outside the alphabet are dropped "
+               "silently and a malformed record yields a value instead of an error" % (tpx.qualname, nm), node=n)
     ctx.need(ndec >= 1, "SecureField.to_python no longer decodes the stored ciphertext: vanished anchor")
     aes_init = model.method("AesProvider", "__init__")
     ctx.ob("reject.aes-unavailable", aes_init, "AES_AVAILABLE guard", any(n.kind == "raise" for n in an.cfg(aes_init).nodes),
